@@ -24,7 +24,17 @@ def model_description(formula):
 
     description = Resolver(Parser(Scanner(formula).scan()).parse()).resolve()
 
-    if isinstance(description, Model):
-        return description
+    if not isinstance(description, Model):
+        description = Model(description)
 
-    return Model(description)
+    # The subset notation 'variable[level]' only has a meaning in the response. It used to be
+    # accepted, and ignored, everywhere else.
+    for term in description.terms:
+        terms = [term.expr, term.factor] if hasattr(term, "factor") else [term]
+        for component in (c for t in terms for c in getattr(t, "components", [])):
+            if getattr(component, "reference", None) is not None:
+                raise ValueError(
+                    f"'{component.name}[{component.reference}]' is not the response. "
+                    "The notation 'variable[level]' can only be used for the response."
+                )
+    return description
